@@ -230,7 +230,7 @@ impl Prop for C01 {
     }
 
     fn worker(&self, ctx: &mut WorkerCtx) {
-        let total = if ctx.quick { 40_000 } else { 1_500_000 };
+        let total = if ctx.quick { 40_000 } else { 1_000_000 };
         let n = ctx.share(total);
         ctx.drive(1, n, 700, &gen_case, &check, &reduce);
     }
